@@ -814,12 +814,12 @@ Proof.
   specialize (H Hout). vm_compute in H. inversion H as [|? ? ? ? _ Hl]. inversion Hl.
 Qed.
 
-Lemma has_unknown_false ps : has_unknown (map fst ps) = false ->
+Lemma has_unknown_false (ps : list (operand * list nat)) : has_unknown (map fst ps) = false ->
   forall o c, In (o, c) ps -> op_shape o <> None.
 Proof.
   unfold has_unknown. intros H o c Hin E.
   assert (Hex : existsb (fun o => match op_shape o with None => true | Some _ => false end) (map fst ps) = true).
-  { apply existsb_exists. exists o. split; [apply in_map_iff; exists (o, c); au|now rewrite E]. }
+  { apply existsb_exists. exists o. split; [exact (in_map fst ps (o, c) Hin)|now rewrite E]. }
   rewrite Hex in H. discriminate.
 Qed.
 
